@@ -26,7 +26,7 @@ def c11(ctx: Ctx):
     log("[gen] %d universes" % n)
     ctx.build_driver()
     logp = os.path.join(ctx.scratch, "log.ndjson")
-    ctx.drive(cases, logp, shards=8)
+    ctx.drive(cases, logp, shards=(12 if ctx.tier == "thorough" else 8))
     rng = random.Random(ctx.seed)
     for l in open(logp):
         o = json.loads(l)
